@@ -351,7 +351,11 @@ func genContent(r *rng.R, t *SrcTree) wire.Content {
 }
 
 func genSrc(r *rng.R, t *SrcTree) string {
-	switch r.Intn(10) {
+	switch r.Intn(12) {
+	case 10:
+		return filepath.Join(t.Root, "lib*")
+	case 11:
+		return filepath.Join(t.Root, "lib*/*.so")
 	case 0:
 		return filepath.Join(t.Root, "etc/conf.d/*.conf")
 	case 1:
